@@ -236,7 +236,11 @@ func (x *Exec) check(extra ...*Term) Result {
 	if x.cfg.Params["int_mode"] == 1 {
 		// integer rendering first: decides sum/overflow queries quickly
 		all := append(append([]*Term{}, sl...), extra...)
-		r, why := x.sol.CheckInt(all, 10000)
+		itmo := 10000
+		if v := x.cfg.Params["int_timeout_ms"]; v > 0 {
+			itmo = v
+		}
+		r, why := x.sol.CheckInt(all, itmo)
 		if r != Unknown {
 			x.res.Queries++
 			x.res.IntQ++
@@ -2216,8 +2220,34 @@ func (x *Exec) reportViolation(kind, msg, site string, cond *Term) {
 		x.sol.define(t)
 		vars = append(vars, t)
 	}
-	r, vals := x.sol.CheckModel(vars)
-	x.res.Queries++
+	var r Result
+	var vals map[int]*big.Int
+	if x.cfg.Params["int_alt"] == 1 {
+		// arithmetic-heavy harnesses: take the counterexample from the integer
+		// back ends (validated by native replay); bit-vector solvers only if
+		// the query is outside the integer rendering
+		all := append(append([]*Term{}, x.pc...), cond)
+		if cond == nil {
+			all = all[:len(all)-1]
+		}
+		imt := 20000
+		if v := x.cfg.Params["int_timeout_ms"]; v > imt {
+			imt = v
+		}
+		r, vals = x.sol.IntModel(all, vars, imt)
+		x.res.Queries++
+		if r == Sat {
+			for _, t := range vars {
+				if _, ok := vals[t.ID]; !ok {
+					vals[t.ID] = new(big.Int) // unconstrained in the query
+				}
+			}
+		}
+	}
+	if r != Sat && r != Unsat {
+		r, vals = x.sol.CheckModel(vars)
+		x.res.Queries++
+	}
 	if r == Unknown && x.cfg.FallbackMs > 0 {
 		var names []string
 		for _, t := range vars {
